@@ -43,7 +43,7 @@ def crop_to_bbox(
     r_offset = (bbox_coords + bbox_size) - np.array(data.shape)
     r_offset[r_offset < 0] = 0
 
-    region_idx = [slice(i, j) for i, j in zip(bbox_coords + l_offset, bbox_coords + bbox_size - r_offset)]
+    region_idx = [slice(i, max(i, j)) for i, j in zip(bbox_coords + l_offset, bbox_coords + bbox_size - r_offset)]
 
     out: Union[np.ndarray, torch.Tensor]
     if isinstance(data, torch.Tensor):
@@ -62,7 +62,7 @@ def crop_to_bbox(
     elif isinstance(data, np.ndarray):
         patch = pad_value * np.ones(bbox_size, dtype=data.dtype)
 
-    patch_idx = [slice(i, j) for i, j in zip(l_offset, bbox_size - r_offset)]
+    patch_idx = [slice(i, max(i, j)) for i, j in zip(l_offset, bbox_size - r_offset)]
 
     patch[tuple(patch_idx)] = out  # type: ignore
 
